@@ -142,6 +142,8 @@ func (g *Message) Parse(bt []byte) error {
 	switch bt[3] {
 	case 0x06:
 		g.IsResponse = false
+		// a receiver that held another message before must not keep its data
+		g.Data = nil
 		// a command without parameters has 6 bytes: F0 7F <device> 06 <command> F7
 		if len(bt) < 6 {
 			return fmt.Errorf("wrong length for command: %v (must be >= 6)", len(bt))
